@@ -519,6 +519,37 @@ func (c *Ctx) c18Framing(pbLog, pbMsg *types.Named) {
 					}
 					return true
 				})
+				// … and the prefixed value is not replaced by the un-prefixed one afterwards (T = append(p, v...); T = v)
+				if ok && res != nil {
+					var tgt ast.Expr
+					var tgtPos token.Pos
+					ast.Inspect(fi.Node(), func(n ast.Node) bool {
+						as, isAs := n.(*ast.AssignStmt)
+						if !isAs || len(as.Lhs) != 1 || len(as.Rhs) != 1 {
+							return true
+						}
+						ac, isC := ast.Unparen(as.Rhs[0]).(*ast.CallExpr)
+						if isC && astx.Builtin(info, ac) == "append" && len(ac.Args) == 2 && ac.Ellipsis.IsValid() {
+							if id, isID := ast.Unparen(ac.Args[1]).(*ast.Ident); isID && astx.Obj(info, id) == res {
+								if lid, isL := ast.Unparen(as.Lhs[0]).(*ast.Ident); !isL || astx.Obj(info, lid) != res {
+									tgt, tgtPos = as.Lhs[0], as.Pos()
+								}
+							}
+						}
+						return true
+					})
+					if tgt != nil {
+						ast.Inspect(fi.Node(), func(n ast.Node) bool {
+							as, isAs := n.(*ast.AssignStmt)
+							if isAs && as.Pos() > tgtPos && len(as.Lhs) == 1 && len(as.Rhs) == 1 && astx.Same(info, as.Lhs[0], tgt) {
+								if id, isID := ast.Unparen(as.Rhs[0]).(*ast.Ident); isID && astx.Obj(info, id) == res {
+									ok = false
+								}
+							}
+							return true
+						})
+					}
+				}
 				r.Check(ok, "C18.F3", fi.Name(), "protobuf value gets the 'p' marker", c.P.Pos(call.Pos()), "append([]byte{'p'}, v...)",
 					"a protobuf-encoded "+t.Obj().Name()+" is written without the leading 'p' marker byte every reader strips: it is decoded as legacy JSON")
 			case "Unmarshal":
